@@ -59,6 +59,7 @@ type Contract struct {
 	Trusted  bool
 	Lets     []Clause // Label = name
 	Requires []Clause
+	Captures []Clause // facts about captured variables: proved where the closure is created, assumed at its entry
 	Ensures  []Clause
 	Assigns  []string
 	HasAssigns bool
@@ -106,7 +107,7 @@ type ContractFile struct {
 	Lemmas    []*Lemma
 }
 
-var kwRe = regexp.MustCompile(`^(func|mode|inline|trusted|param|let|requires|ensures|assigns|loop|invariant|modifies|decreases|rel|chain|assume_at_call|pathkey|spec|lemma|opt)\b`)
+var kwRe = regexp.MustCompile(`^(func|mode|inline|trusted|param|let|requires|ensures|assigns|loop|invariant|modifies|decreases|rel|chain|assume_at_call|pathkey|spec|lemma|opt|captures)\b`)
 
 func ParseContracts(path string) (*ContractFile, error) {
 	f, err := os.Open(path)
@@ -295,7 +296,7 @@ func ParseContracts(path string) (*ContractFile, error) {
 					return nil, err
 				}
 				cur.Lets = append(cur.Lets, Clause{Label: strings.TrimSpace(rest[:i]), Src: rest, Expr: e, Line: l.line})
-			case "requires", "ensures", "invariant", "decreases", "rel":
+			case "requires", "ensures", "invariant", "decreases", "rel", "captures":
 				label := ""
 				if strings.HasPrefix(rest, "[") {
 					j := strings.Index(rest, "]")
@@ -314,6 +315,8 @@ func ParseContracts(path string) (*ContractFile, error) {
 				switch kw {
 				case "requires":
 					cur.Requires = append(cur.Requires, c)
+				case "captures":
+					cur.Captures = append(cur.Captures, c)
 				case "ensures":
 					cur.Ensures = append(cur.Ensures, c)
 				case "rel":
